@@ -590,8 +590,10 @@ class WebSocket:
         """
         close socket, immediately.
         """
-        if self.sock:
-            self.sock.close()
+        # another thread may be closing the same connection
+        sock = self.sock
+        if sock:
+            sock.close()
             self.sock = None
             self.connected = False
 
